@@ -100,7 +100,8 @@ def write(km):
     cm = CharMap(sorted(chars))
     ntags = km.get("ntags", 0)
     out = b"KyTea 0.4.7 B UTF-8\n"
-    out += u8(1) + u8(1 if ntags else 0) + u32(ntags)
+    do_tags = km.get("do_tags", 1 if ntags else 0)      # the tag sections exist for every tag slot whatever this flag says
+    out += u8(1) + u8(do_tags) + u32(ntags)
     out += u8(km["char_w"]) + u8(3) + u8(km["type_w"]) + u8(3) + u8(km["dict_n"]) + u8(1) + f64(0.01) + u8(1)
     out += "".join(chr(c) for c in cm.chars).encode("utf-8") + b"\0"
     # word segmentation model
